@@ -152,10 +152,13 @@ emit_dqt(j_compress_ptr cinfo, int index)
 /* Emit a DQT marker */
 /* Returns the precision used (0 = 8bits, 1 = 16bits) for baseline checking */
 {
-  JQUANT_TBL *qtbl = cinfo->quant_tbl_ptrs[index];
+  JQUANT_TBL *qtbl;
   int prec;
   int i;
 
+  if (index < 0 || index >= NUM_QUANT_TBLS)
+    ERREXIT1(cinfo, JERR_NO_QUANT_TABLE, index);
+  qtbl = cinfo->quant_tbl_ptrs[index];
   if (qtbl == NULL)
     ERREXIT1(cinfo, JERR_NO_QUANT_TABLE, index);
 
